@@ -899,5 +899,5 @@ def exhaustive_ok():
                 segs.append(('xok-%d-%d-%d-%d' % (sh, lo, hi, se[0]), ops))
     return segs
 
-EXHAUSTIVE.update({'C07': [exhaustive_forbid, exhaustive_forbid_seq], 'C08': [exhaustive_clauses], 'C13': [exhaustive_monitors, exhaustive_seqmonitors], 'C14': [exhaustive_monitors, exhaustive_seqdeath],
+EXHAUSTIVE.update({'C07': [exhaustive_forbid, exhaustive_forbid_seq], 'C08': [exhaustive_clauses], 'C13': [exhaustive_monitors, exhaustive_seqmonitors], 'C14': [exhaustive_monitors, exhaustive_seqdeath, exhaustive_tracers],
                    'C15': [exhaustive_reports, exhaustive_forbid, exhaustive_seqmonitors], 'C16': [exhaustive_reports, exhaustive_ok], 'C17': [exhaustive_tracers]})
